@@ -1416,6 +1416,27 @@ class Exec:
         return r
 
     def comprehension(self, e, env):
+        if len(e.generators) == 2:
+            g1, g2 = e.generators
+            if isinstance(g1.target, ast.Name) and isinstance(g2.iter, ast.Name) and \
+                    g2.iter.id == g1.target.id and not g1.ifs and not g1.is_async and not g2.is_async:
+                # [elt for X in S for a in X ...]  ==  [elt for a in flat(S) ...]: one generator
+                # over the concatenation of the inner sequences (X itself must not occur in elt)
+                used = {n.id for n in ast.walk(e.elt) if isinstance(n, ast.Name)} | \
+                    {n.id for c in g2.ifs for n in ast.walk(c) if isinstance(n, ast.Name)}
+                if g1.target.id not in used:
+                    flat = ast.Call(ast.Name("flat", ast.Load()), [g1.iter], [])
+                    e2 = type(e)(e.elt, [ast.comprehension(g2.target, flat, g2.ifs, 0)])
+                    ast.copy_location(e2, e)
+                    ast.fix_missing_locations(e2)
+                    self._comp_alias = getattr(self, "_comp_alias", {})
+                    self._comp_alias[id(e2)] = e
+                    return self.comprehension(e2, env)
+            if self.contract.get("comps"):
+                from . import loops
+                r = loops.run_comprehension(self, e, env)
+                if r is not None:
+                    return r
         if len(e.generators) != 1:
             raise Unsupported("multi-generator comprehension")
         if self.contract.get("comps"):
